@@ -53,7 +53,7 @@ def _prep(sc, r):
     ev = []
     for e in r['events']:
         k = e['e']
-        if k in ('Config', 'Tick', 'End'):
+        if k in ('Config', 'Tick', 'End', 'AwDone'):
             continue
         if k not in _KEEP or 'st' not in e:
             return None
